@@ -40,7 +40,7 @@ func init() {
 	hx.Register(&hx.Prop{
 		ID: "C10",
 		Rule: "server: exhaustive patterns (≤4 over {a,/,{,}}) × inputs (≤3 over {a,/,b}) plus URL-shaped pairs; " +
-			"schema: all environments of ≤2 definitions over the fragment leaf/allOf/items/$ref (depth ≤2) × 2 values (4 in thorough), plus random ones; " +
+			"schema: all one-definition environments over the fragment leaf/allOf/items/$ref (depth ≤2), a second exhaustive family with not/anyOf against allOf/items, × 2 values (4 in thorough), plus random environments of ≤3 definitions; " +
 			"traffic: seeded documents assembled from pools of legal-but-unusual features (content-defined parameters and headers, bounds flags without bounds, multipleOf 0, " +
 			"uncompilable-looking patterns, discriminators, deepObject, recursive components, path items without operations, trailing-slash and templated servers) × " +
 			"byte-level requests/responses (any method, verbatim-template and mutated paths, hostile queries, content types and bodies) through both routers, " +
@@ -130,6 +130,16 @@ func c10SchemaJSON(s map[string]any) map[string]any {
 	if it, ok := s["items"].(map[string]any); ok {
 		out["items"] = c10SchemaJSON(it)
 	}
+	if alts := jlist(s["anyOf"]); len(alts) > 0 {
+		var l []any
+		for _, x := range alts {
+			l = append(l, c10SchemaJSON(x.(map[string]any)))
+		}
+		out["anyOf"] = l
+	}
+	if nt, ok := s["not"].(map[string]any); ok {
+		out["not"] = c10SchemaJSON(nt)
+	}
 	return out
 }
 
@@ -140,11 +150,15 @@ func c10Refs(s map[string]any, acc *[]int) {
 		*acc = append(*acc, n)
 		return
 	}
-	for _, x := range jlist(s["allOf"]) {
-		c10Refs(x.(map[string]any), acc)
+	for _, k := range []string{"allOf", "anyOf"} {
+		for _, x := range jlist(s[k]) {
+			c10Refs(x.(map[string]any), acc)
+		}
 	}
-	if it, ok := s["items"].(map[string]any); ok {
-		c10Refs(it, acc)
+	for _, k := range []string{"items", "not"} {
+		if it, ok := s[k].(map[string]any); ok {
+			c10Refs(it, acc)
+		}
 	}
 }
 
@@ -691,6 +705,11 @@ func cmpC10x(c hx.Case, impl any, reply map[string]any) hx.Verdict {
 			v.Detail = "schema case did not reach the validator: " + k
 			return v
 		}
+		if agree, ok := model["cyc_agree"].(bool); ok && !agree {
+			v.IM = false
+			v.Detail += " rank certificate and cycle search disagree on this environment"
+			return v
+		}
 		switch jstr(model, "res") {
 		case "diverge":
 			v.IM = bad
@@ -866,6 +885,25 @@ func c10SchemaShapes(nDefs int) []any {
 			out = append(out, map[string]any{"own": false, "allOf": al, "items": it}, map[string]any{"own": true, "allOf": al, "items": it})
 		}
 	}
+	// second family: the other unguarded positions (not, anyOf with its first-success break) against allOf / items
+	ref0 := map[string]any{"ref": 0}
+	lt, lf := map[string]any{"leaf": true}, map[string]any{"leaf": false}
+	nots := []any{nil, lt, lf, ref0}
+	anys := [][]any{{}, {ref0}, {lt, ref0}, {lf, ref0}, {ref0, lt}}
+	for _, nt := range nots {
+		for _, ay := range anys {
+			if nt == nil && len(ay) == 0 {
+				continue // first family
+			}
+			for _, al := range [][]any{{}, {ref0}} {
+				for _, it := range []any{nil, ref0} {
+					for _, own := range []bool{false, true} {
+						out = append(out, map[string]any{"own": own, "not": nt, "anyOf": ay, "allOf": al, "items": it})
+					}
+				}
+			}
+		}
+	}
 	return out
 }
 
@@ -891,7 +929,18 @@ func c10RandSchema(r *hx.Rng, nDefs, depth int, top bool) map[string]any {
 	if r.Chance(60) {
 		items = c10RandSchema(r, nDefs, depth-1, false)
 	}
-	return map[string]any{"own": r.Chance(60), "allOf": all, "items": items}
+	out := map[string]any{"own": r.Chance(60), "allOf": all, "items": items}
+	if r.Chance(30) {
+		alts := []any{}
+		for i := 1 + r.Intn(2); i > 0; i-- {
+			alts = append(alts, c10RandSchema(r, nDefs, depth-1, false))
+		}
+		out["anyOf"] = alts
+	}
+	if r.Chance(20) {
+		out["not"] = c10RandSchema(r, nDefs, depth-1, false)
+	}
+	return out
 }
 
 func c10RandValue(r *hx.Rng, depth int) any {
